@@ -27,8 +27,8 @@ where
     let mut ww = WireWorld::new(NEVER, fw, fh, probe, nb, 8);
     let wp: *mut WireWorld = &mut ww;
     let mut backing = [0u8; 8];
-    let len: usize = kani::any();
-    kani::assume(len >= nb && len <= lmax && lmax <= 8);
+    // concrete buffer length here (symbolic lengths are C06's subject)
+    let len: usize = lmax;
     let cfg = Cfg { w: fw, h: fh, ox: 0, oy: 0, o: any_orientation() };
     let di = SpiInterface::new(WSpi(wp), WDc(wp), &mut backing[..len]);
     let Ok(mut d) = Builder::new(m, di)
@@ -69,8 +69,7 @@ where
         Some((px, py)) if inside(px, py) => assert!(ww.core.probe_writes == 1 && ww.core.probe_val == col2.wire(), "[C01][C06] fill decoded from the SPI byte stream covers the clipped rectangle"),
         _ => assert!(ww.core.probe_writes == 0, "[C01][C02] fill touches nothing else"),
     }
-    kani::cover!(e == probe && len == lmax, "cover: hit with the largest buffer");
-    kani::cover!(len == nb, "cover: one-pixel buffer");
+    kani::cover!(e == probe, "cover: hit");
 }
 
 /// the same over the 8-bit parallel interface
@@ -109,19 +108,6 @@ where
         assert!(ww.core.probe_writes == 1 && ww.core.probe_val == col.wire(), "[C01][C05][C07] pixel decoded from the latched words lands at the oriented, offset cell with its colour");
     } else {
         assert!(ww.core.probe_writes == 0, "[C01] no other cell changes");
-    }
-    ww.core.probe_writes = 0;
-    let (rx, ry): (i32, i32) = (kani::any(), kani::any());
-    kani::assume(rx >= -1 && rx <= 3 && ry >= -1 && ry <= 2);
-    let rect = Rectangle::new(Point::new(rx, ry), Size::new(2, 2));
-    let col2 = <M::ColorFormat as Wire>::any();
-    d.fill_solid(&rect, col2).unwrap();
-    ww.finish();
-    assert_wire_framing(&ww);
-    let inside = |x: u16, y: u16| (x as i32) >= rx && (x as i32) < rx + 2 && (y as i32) >= ry && (y as i32) < ry + 2;
-    match cfg.inv(probe) {
-        Some((px, py)) if inside(px, py) => assert!(ww.core.probe_writes == 1 && ww.core.probe_val == col2.wire(), "[C01][C07] fill decoded from the latched words covers the clipped rectangle (strobe-only repeat included)"),
-        _ => assert!(ww.core.probe_writes == 0, "[C01][C02] fill touches nothing else"),
     }
     kani::cover!(e == probe, "cover: hit");
 }
@@ -217,11 +203,11 @@ macro_rules! h {
         }
     };
 }
-//@ props=C01,C06,C08 tier=thorough inst="Display<SpiInterface, VModel<Rgb565,3,2>>" bounds="SPI buffer length 2..=5, symbolic set_pixel then a 2x2 fill_solid at a symbolic corner, full-size window, 8 orientations; decoded from the byte stream" timeout=3600 mem=20 required=no
+//@ props=C01,C06,C08 tier=thorough inst="Display<SpiInterface, VModel<Rgb565,3,2>>" bounds="SPI buffer of 5 bytes, symbolic set_pixel then a 2x2 fill_solid at a symbolic corner, full-size window, 8 orientations; decoded from the byte stream" timeout=3600 mem=20 required=no
 h!(c01_e2e_spi_565, 10, e2e_spi_h(VModel::<Rgb565, 3, 2>::new(), 5));
-//@ props=C01,C06,C08 tier=thorough required=no inst="Display<SpiInterface, VModel<Rgb666,3,2>>" bounds="SPI buffer length 3..=7, same" timeout=3600 mem=20
+//@ props=C01,C06,C08 tier=thorough required=no inst="Display<SpiInterface, VModel<Rgb666,3,2>>" bounds="SPI buffer of 7 bytes, same" timeout=3600 mem=20
 h!(c01_e2e_spi_666, 14, e2e_spi_h(VModel::<Rgb666, 3, 2>::new(), 7));
-//@ props=C01,C07,C08,C17 tier=thorough inst="Display<ParallelInterface<Generic8BitBus>, VModel<Rgb565,3,2>>, no reset pin" bounds="symbolic initial pin levels, symbolic set_pixel then a 2x2 fill_solid, full-size window, 8 orientations; decoded from the latched words" timeout=3600 mem=20 required=no
+//@ props=C01,C07,C08,C17 tier=thorough inst="Display<ParallelInterface<Generic8BitBus>, VModel<Rgb565,3,2>>, no reset pin" bounds="symbolic initial pin levels, init without reset pin then a symbolic set_pixel, full-size window, 8 orientations; decoded from the latched words" timeout=3600 mem=20 required=no
 h!(c01_e2e_par8_565, 10, e2e_par8_h(VModel::<Rgb565, 3, 2>::new()));
 //@ props=C12,C11,C17 tier=thorough inst="Builder+ILI9341Rgb565 over the real SpiInterface, reset pin" bounds="all options x symbolic failing low-level operation (pin set / SPI write), then a 2x1 fill_solid; unwind 20" timeout=1800 mem=10
 h!(c12_full_spi_ili9341, 20, full_spi_fault_h(mipidsi::models::ILI9341Rgb565));
